@@ -99,7 +99,7 @@ def cases(tier, seed):
             yield {"kind": "rewrite", "fields": fl, "exclude": ex}
     for expr in REWRITE_EXPRS:
         for k in (1, 2, 3):
-            for seq in itertools.product(["D", "D1", "D2", "E"], repeat=k):
+            for seq in itertools.product(["D", "D1", "D2", "E", "D3", "D4"], repeat=k):
                 for fl, ex in (([], []), (["a"], []), ([], ["n"])):
                     yield {"kind": "rewrite", "fields": fl, "exclude": ex, "expr": expr, "seq": list(seq)}
 
@@ -417,7 +417,7 @@ def run_proj(case):
 
 
 REWRITE_EXPRS = ["extra = 1", "total = n + 1", "label = a.upper()", "if isinstance(n, int) and n > 4:\n    big = n", "a = 'overridden'", "x = 1\ny = x + n",
-                 "try:\n    half = n / 2\nexcept TypeError:\n    pass"]
+                 "try:\n    half = n / 2\nexcept TypeError:\n    pass", "if isinstance(a, str):\n    tag = a\nval = n + 1", "first = a\nsecond = n.upper()"]
 
 
 def run_rewrite_expr(case):
@@ -428,7 +428,8 @@ def run_rewrite_expr(case):
     h = jhash(case)
     viol = []
     specs = {"D": rs("w/rec", [["string", "a"], ["varint", "n"]], ["'0404'", "5"]), "D1": rs("w/rec", [["varint", "a"], ["string", "n"]], ["404", "'five'"]),
-             "D2": rs("w/rec", [["string", "a"], ["varint", "n"]], ["'aa'", "2"]), "E": rs("w/other", [["string", "a"]], ["'only-a'"])}
+             "D2": rs("w/rec", [["string", "a"], ["varint", "n"]], ["'aa'", "2"]), "E": rs("w/other", [["string", "a"]], ["'only-a'"]),
+             "D3": rs("w/rec", [["string", "a"], ["string", "n"]], ["'tagged'", "'x'"]), "D4": rs("w/rec", [["varint", "a"], ["varint", "n"]], ["7", "1"])}
     rw = RecordFieldRewriter(list(case["fields"]), list(case["exclude"]), case["expr"])
     outs = []
     for label in case["seq"]:
